@@ -219,21 +219,25 @@ fn check() {
                 seq.push(heads[code % n].clone());
                 code /= n;
             }
-            ctr.cases.fetch_add(1, Ordering::Relaxed);
-            let r = catch(|| {
-                let mut f: Fragments<Frame> = Fragments::new(Duration::from_millis(0));
-                let mut outs = vec![];
-                for (i, d) in seq.iter().enumerate() {
-                    outs.push(f.reassemble(Bytes::from(d.clone())).is_some());
-                    if i == 0 {
-                        f.timer();
+            // twice: the partial frame of the first datagram has expired when the next one arrives (timer path), and it
+            // is still being collected (the later header meets a queue sized by the earlier one)
+            for expire in [true, false] {
+                ctr.cases.fetch_add(1, Ordering::Relaxed);
+                let r = catch(|| {
+                    let mut f: Fragments<Frame> = Fragments::new(if expire { Duration::from_millis(0) } else { Duration::from_secs(3600) });
+                    let mut outs = vec![];
+                    for (i, d) in seq.iter().enumerate() {
+                        outs.push(f.reassemble(Bytes::from(d.clone())).is_some());
+                        if i == 0 {
+                            f.timer();
+                        }
                     }
+                    outs
+                });
+                match r {
+                    Ok(o) => ctr.outcomes.add(&("fragN", expire, o)),
+                    Err(p) => chk.violation("fragment.reassemble", &format!("panic:{}", norm(&p)), format!("datagrams {:?} ({}) : {p}", seq.iter().map(|d| hex(d)).collect::<Vec<_>>(), if expire { "first one expired" } else { "first one still collected" }), json!({"datagrams": seq.iter().map(|d| hex(d)).collect::<Vec<_>>(), "first_expired": expire})),
                 }
-                outs
-            });
-            match r {
-                Ok(o) => ctr.outcomes.add(&("fragN", o)),
-                Err(p) => chk.violation("fragment.reassemble", &format!("panic:{}", norm(&p)), format!("datagrams {:?} : {p}", seq.iter().map(|d| hex(d)).collect::<Vec<_>>()), json!({"datagrams": seq.iter().map(|d| hex(d)).collect::<Vec<_>>()})),
             }
         });
         samples.push(json!({"fragment_header": "00 01 80 81 + 1 byte", "sequences_over": "{0,1,2,127,128,129,255}^2 x id{0,1}"}));
